@@ -324,4 +324,172 @@ Proof.
       apply Hcr. apply (Hchk d). apply A. assumption.
 Qed.
 
+Lemma holder_step s f s' h : inv1 g s -> step g s f = Some s' ->
+  permits s' = 0 -> (permits s = 0 -> holder (tpc (tasks s h)) = true) ->
+  exists h', holder (tpc (tasks s' h')) = true.
+Proof.
+  intros Hi1 H Hp0 Hh.
+  destruct (step_spec g _ _ _ H) as (t' & cr & pe & tick & Hl & Htk & _ & Hpe).
+  assert (Hself : tasks s' f = t') by (rewrite Htk; apply upd_same).
+  destruct pe.
+  - (* acquire: the stepping task now holds a permit *)
+    exists f. rewrite Hself. clear Htk Hself. local_cases Hl; reflexivity.
+  - lia.
+  - rewrite Hp0 in Hpe. symmetry in Hpe. specialize (Hh Hpe).
+    destruct (Nat.eq_dec h f) as [->|Hhf].
+    + exists f. rewrite Hself. clear Htk Hself. local_cases Hl; cbn in Hh; try discriminate; try reflexivity.
+    + exists h. destruct (step_other g _ _ _ h H Hhf) as [E|(E & _)]; [now rewrite E|].
+      rewrite E in Hh. discriminate.
+Qed.
+
+Lemma inv3_step s f s' : inv1 g s -> inv2 g req s -> inv3 s -> step g s f = Some s' -> inv3 s'.
+Proof.
+  intros Hi1 Hi2 Hi3 H. split.
+  - intros T. destruct (Nat.eq_dec T f) as [->|HT].
+    + eapply inv3_step_self; eassumption.
+    + eapply inv3_step_other; eassumption.
+  - intros Hp0. destruct Hi3 as [_ Hsem].
+    destruct (Nat.eq_dec (permits s) 0) as [Hz|Hnz].
+    + destruct (Hsem Hz) as (h & Hh). eapply (holder_step _ _ _ h); try eassumption. auto.
+    + eapply (holder_step _ _ _ 0); try eassumption. intros; contradiction.
+Qed.
+
+Lemma reach_inv3 s : reach s -> inv1 g s /\ inv2 g req s /\ inv3 s.
+Proof.
+  intros H. induction H as [|s f s' Hr (IH1 & IH2 & IH3) Hs].
+  - split; [apply inv1_init; assumption|]. split; [apply inv2_init|apply inv3_init].
+  - split; [eapply inv1_step; eassumption|]. split; [eapply inv2_step; eassumption|eapply inv3_step; eassumption].
+Qed.
+
+(* ---- no set of tasks can wait on each other around published import edges ---- *)
+Definition afterloop (p : pc) : bool :=
+  match p with PRelease | PWait _ | PDone (Some (FDep _)) => true | _ => false end.
+
+Lemma argmax (h : nat -> nat) (C : list nat) : C <> [] -> exists T, In T C /\ forall x, In x C -> h x <= h T.
+Proof.
+  induction C as [|a C IH]; [congruence|]. intros _. destruct C as [|b C].
+  - exists a. split; [left; reflexivity|]. intros x [<-|[]]. lia.
+  - destruct (IH ltac:(discriminate)) as (T & HT & Hmax).
+    destruct (le_lt_dec (h a) (h T)).
+    + exists T. split; [right; assumption|]. intros x [<-|Hx]; [assumption|apply Hmax; assumption].
+    + exists a. split; [left; reflexivity|]. intros x [<-|Hx]; [lia|]. specialize (Hmax x Hx). lia.
+Qed.
+
+Lemma filter_len_le {A} (p : A -> bool) (l : list A) : length (filter p l) <= length l.
+Proof. induction l as [|a l IH]; cbn; [lia|]. destruct (p a); cbn; lia. Qed.
+
+Lemma filter_length_lt {A} (p : A -> bool) (l : list A) x : In x l -> p x = false ->
+  length (filter p l) < length l.
+Proof.
+  induction l as [|a l IH]; intros Hin Hp; [destruct Hin|]. cbn.
+  destruct Hin as [->|Hin].
+  - rewrite Hp. pose proof (filter_len_le p l). lia.
+  - specialize (IH Hin Hp). destruct (p a); cbn; lia.
+Qed.
+
+Lemma no_stuck_set s : inv1 g s -> inv3 s ->
+  forall n C, length C <= n -> C <> [] ->
+  (forall x, In x C -> afterloop (tpc (tasks s x)) = true /\ exists y, In y C /\ In y (imports g x)) ->
+  False.
+Proof.
+  intros Hi1 [Ht3 _]. pose proof Hi1 as [Ht1 Hdist].
+  induction n as [|n IH]; intros C Hlen Hne Hst.
+  - destruct C; [congruence|cbn in Hlen; lia].
+  - destruct (argmax (pt s) C Hne) as (T & HTC & Hmax).
+    destruct (Hst T HTC) as (HaT & y0 & Hy0C & Hy0).
+    (* what T knows after its loop *)
+    assert (HT : incl (imports g T) (checked (tasks s T)) /\ all_closed s T).
+    { pose proof (i3_pc _ _ (Ht3 T)) as Hpc. unfold inv3_pc in Hpc.
+      destruct (tpc (tasks s T)) as [| | | |i|i|i st| |i| | | |[[| | |sq d|d]|]]; try discriminate; assumption. }
+    destruct HT as [Hdeps Hclosed].
+    assert (Hbl : forall x, In x C -> bl s x = true).
+    { intros x Hx. destruct (Hst x Hx) as (Ha & _). unfold bl. rewrite (i1_blocked _ _ _ (Ht1 x)).
+      destruct (tpc (tasks s x)) as [| | | |i|i|i st| |i| | | |[[| | |sq d|d]|]]; try discriminate; reflexivity. }
+    assert (Hearlier : forall x, In x C -> x <> T -> earlier s T x).
+    { intros x Hx HxT. split; [apply Hbl; assumption|].
+      specialize (Hmax x Hx). pose proof (Hdist x T HxT (Hbl x Hx) (Hbl T HTC)). unfold pt in *. lia. }
+    set (p := fun x => memb x (checked (tasks s T))).
+    apply (IH (filter p C)).
+    + pose proof (filter_length_lt p C T HTC) as Hlt.
+      assert (p T = false) by (apply memb_false; apply (i3_self _ _ (Ht3 T))). specialize (Hlt H). lia.
+    + intros Hnil. assert (In y0 (filter p C)) as Hin; [|rewrite Hnil in Hin; destruct Hin].
+      apply filter_In. split; [assumption|]. apply memb_In. apply Hdeps. assumption.
+    + intros x Hx. apply filter_In in Hx. destruct Hx as [HxC Hpx]. apply memb_In in Hpx.
+      destruct (Hst x HxC) as (Hax & y & HyC & Hyx). split; [assumption|].
+      assert (HxT : x <> T) by (intros ->; apply (i3_self _ _ (Ht3 T)); assumption).
+      destruct (Hclosed x Hpx (Hearlier x HxC HxT)) as [HnT Hcl].
+      assert (HyT : y <> T) by (intros ->; contradiction).
+      exists y. split; [|assumption]. apply filter_In. split; [assumption|].
+      apply memb_In. apply Hcl; [assumption|]. apply Hearlier; assumption.
+Qed.
+
+(* a task that holds a permit can always take its next step *)
+Lemma holder_enabled s h : inv1 g s -> holder (tpc (tasks s h)) = true -> exists s', step g s h = Some s'.
+Proof.
+  intros [Ht1 _] Hh. pose proof (i1_pc _ _ _ (Ht1 h)) as Hpc.
+  unfold step, step_local.
+  destruct (tpc (tasks s h)) as [| | | |i|i|i st| |i| | | |r] eqn:Epc; try discriminate.
+  - destruct (rres g h); eauto.
+  - eauto.
+  - destruct (nth_error (imports g h) i); [destruct (Nat.eqb n h)|]; eauto.
+  - destruct Hpc as (d & Hd & _). rewrite Hd. destruct (memb d (checked (tasks s h))); eauto.
+  - destruct st as [|[sq [|d rest]] st']; eauto.
+    destruct (memb d sq); eauto. destruct (negb (created s d)); eauto.
+    destruct (memb d (checked (tasks s h))); eauto.
+  - eauto.
+  - eauto.
+Qed.
+
+Lemma forallb_false_ex {A} (p : A -> bool) l : forallb p l = false -> exists x, In x l /\ p x = false.
+Proof.
+  induction l as [|a l IH]; [discriminate|]. cbn. destruct (p a) eqn:E.
+  - intros H. destruct (IH H) as (x & A1 & A2). exists x. auto.
+  - intros _. exists a. auto.
+Qed.
+
+(* ---- deadlock freedom: in every reachable state that is not final some task can step ---- *)
+Theorem no_deadlock s : reach s -> final g s = false -> exists f s', step g s f = Some s'.
+Proof.
+  intros Hr Hnf. destruct (reach_inv3 _ Hr) as (Hi1 & Hi2 & Hi3).
+  pose proof Hi1 as [Ht1 _]. pose proof Hi3 as [Ht3 Hsem].
+  destruct (existsb (fun f => match step g s f with Some _ => true | None => false end)
+                    (seq 0 (nfiles g))) eqn:E.
+  - apply existsb_exists in E. destruct E as (f & _ & Hf). destruct (step g s f) as [s'|] eqn:Es; [exists f, s'; exact Es|discriminate].
+  - exfalso.
+    assert (Hnone : forall f, f < nfiles g -> step g s f = None).
+    { intros f Hf. destruct (step g s f) eqn:Es; [|reflexivity].
+      assert (existsb (fun f => match step g s f with Some _ => true | None => false end)
+                      (seq 0 (nfiles g)) = true); [|congruence].
+      apply existsb_exists. exists f. split; [apply in_seq; lia|]. rewrite Es. reflexivity. }
+    assert (Hlt : forall f, created s f = true -> f < nfiles g).
+    { intros f Hc. destruct (le_lt_dec (nfiles g) f) as [Hle|]; [|assumption].
+      apply (i1_out _ _ _ (Ht1 f)) in Hle. unfold created in Hc. rewrite Hle in Hc. discriminate. }
+    assert (Hnoholder : forall h, holder (tpc (tasks s h)) = true -> False).
+    { intros h Hh. destruct (holder_enabled s h Hi1 Hh) as (s' & Hs').
+      rewrite Hnone in Hs'; [discriminate|]. apply Hlt. unfold created.
+      destruct (tpc (tasks s h)); try discriminate; reflexivity. }
+    assert (Hperm : permits s <> 0).
+    { intros Hz. destruct (Hsem Hz) as (h & Hh). eapply Hnoholder; eassumption. }
+    set (C := filter (fun f => negb (is_done (tpc (tasks s f)))) (seq 0 (nfiles g))).
+    apply (no_stuck_set s Hi1 Hi3 (length C) C (le_n _)).
+    + unfold final in Hnf. destruct (forallb_false_ex _ _ Hnf) as (x & Hx & Hd).
+      intros Hnil. assert (In x C) as Hin; [|rewrite Hnil in Hin; destruct Hin].
+      apply filter_In. split; [assumption|]. rewrite Hd. reflexivity.
+    + intros x Hx. apply filter_In in Hx. destruct Hx as [Hxn Hnd]. apply in_seq in Hxn.
+      pose proof (Hnone x ltac:(lia)) as Hsx. unfold step, step_local in Hsx.
+      apply negb_true_iff in Hnd.
+      destruct (tpc (tasks s x)) as [| | | |i|i|i st| |i| | | |r] eqn:Epc; try discriminate;
+        try (exfalso; apply (Hnoholder x); rewrite Epc; reflexivity).
+      * destruct (permits s); [congruence|discriminate].
+      * (* waiting on a dependency that is not ready *)
+        split; [reflexivity|].
+        destruct (nth_error (imports g x) i) as [d|] eqn:Ed; [|discriminate].
+        exists d. assert (Hdin : In d (imports g x)) by (eapply nth_error_In; eassumption).
+        split; [|assumption]. apply filter_In. split.
+        -- apply in_seq. destruct (wfg _ _ Hdin). lia.
+        -- pose proof (i3_deps _ _ (Ht3 x)) as Hdc. rewrite Epc in Hdc. specialize (Hdc eq_refl d Hdin).
+           unfold created in Hdc. destruct (tpc (tasks s d)) as [| | | | | | | | | | | |[e|]]; try reflexivity; discriminate.
+      * destruct (permits s); [congruence|discriminate].
+Qed.
+
 End Exec3.
